@@ -7,8 +7,9 @@ use std::time::{Duration, Instant};
 /// CPU budget of one command (a stream segment of <= 64 bytes; longer segments get one budget per 64 bytes;
 /// a loop step drained through get_next_action is a command of its own)
 pub const CPU_LIMIT_US: u64 = 500_000;
-/// hard CPU deadline of one case (all segments, re-measurements included); enforced by ITIMER_PROF in the child
-pub const CASE_CPU_DEADLINE_MS: i64 = 1500;
+/// hard CPU deadline of one segment (and of the set-up and of each canvas read-out); enforced by ITIMER_PROF in the
+/// child, re-armed at every segment start: a command that does not come back is killed here
+pub const SEG_CPU_DEADLINE_MS: i64 = 800;
 pub const EXIT_CPU_DEADLINE: i32 = 96;
 /// time a segment may spend neither running nor waiting for a CPU (= sleeping / blocked)
 pub const BLOCKED_LIMIT_US: u64 = 150_000;
@@ -45,6 +46,7 @@ impl Reporter {
         if self.fd >= 0 {
             let b = [0xA5u8, idx as u8, (idx >> 8) as u8];
             unsafe { libc::write(self.fd, b.as_ptr() as *const libc::c_void, 3) };
+            arm_cpu_deadline();
         }
     }
 }
@@ -55,8 +57,7 @@ extern "C" fn on_cpu_deadline(_sig: libc::c_int) {
 
 fn arm_cpu_deadline() {
     unsafe {
-        libc::signal(libc::SIGPROF, on_cpu_deadline as *const () as usize);
-        let it = libc::itimerval { it_interval: libc::timeval { tv_sec: 0, tv_usec: 0 }, it_value: libc::timeval { tv_sec: CASE_CPU_DEADLINE_MS / 1000, tv_usec: (CASE_CPU_DEADLINE_MS % 1000) * 1000 } };
+        let it = libc::itimerval { it_interval: libc::timeval { tv_sec: 0, tv_usec: 0 }, it_value: libc::timeval { tv_sec: SEG_CPU_DEADLINE_MS / 1000, tv_usec: (SEG_CPU_DEADLINE_MS % 1000) * 1000 } };
         libc::setitimer(libc::ITIMER_PROF, &it, std::ptr::null_mut());
     }
 }
@@ -88,7 +89,7 @@ fn signal_name(sig: i32) -> String {
 /// verdict whose key names the family of the segment that was executing:
 ///   normal end            -> the verdict computed by `body`
 ///   killed by a signal    -> abort|<signal>|<family>        (stack overflow, allocation failure abort, ...)
-///   CPU deadline          -> work.cpu|<family>              (more than CASE_CPU_DEADLINE_MS of CPU for one stream)
+///   CPU deadline          -> work.cpu|<family>              (more than SEG_CPU_DEADLINE_MS of CPU in one segment)
 ///   heap cap              -> heapcap|<family>
 ///   asleep, no progress   -> stall.sleep|<family>
 /// CPU time, not wall time, decides: the verdict does not depend on the load of the machine.
@@ -136,6 +137,7 @@ fn isolate_once(family_of: &dyn Fn(u16) -> String, body: &dyn Fn(&Reporter) -> V
             libc::close(fds[0]);
             libc::prctl(libc::PR_SET_PDEATHSIG, libc::SIGKILL);
         }
+        unsafe { libc::signal(libc::SIGPROF, on_cpu_deadline as *const () as usize) };
         arm_cpu_deadline();
         let rep = Reporter { fd: fds[1] };
         let v = match panics::guarded(|| body(&rep)) {
@@ -245,7 +247,7 @@ fn isolate_once(family_of: &dyn Fn(u16) -> String, body: &dyn Fn(&Reporter) -> V
     }
     let code = if libc::WIFEXITED(status) { libc::WEXITSTATUS(status) } else { -1 };
     died(match code {
-        EXIT_CPU_DEADLINE => Verdict::fail(format!("work.cpu|{fam}"), format!("the stream used more than {CASE_CPU_DEADLINE_MS} ms of CPU time; killed while executing this command")),
+        EXIT_CPU_DEADLINE => Verdict::fail(format!("work.cpu|{fam}"), format!("this segment used more than {SEG_CPU_DEADLINE_MS} ms of CPU time and was killed (limit for one command: {} ms)", CPU_LIMIT_US / 1000)),
         alloc::HEAPCAP_EXIT => Verdict::fail(format!("heapcap|{fam}"), "heap cap crossed while executing this command".to_string()),
         c => Verdict::fail(format!("abort|exit{c}|{fam}"), format!("process exited with code {c} while executing this command")),
     })
@@ -356,20 +358,30 @@ pub fn drive(infos: &[SegInfo], removed: &[u16], known: &Known, label: &str, run
         let mut r = run(&alive);
         executed |= r.executed;
         errs = errs.max(r.errs);
+        if let Some(path) = std::env::var_os("C20_TRACE") {
+            // diagnostic: where does the CPU time go? (segments over 20 ms)
+            use std::io::Write;
+            if let Ok(mut f) = std::fs::OpenOptions::new().create(true).append(true).open(path) {
+                for (i, cpu, _) in &r.times {
+                    if *cpu > 20_000 {
+                        let _ = writeln!(f, "{} {}", infos[*i].fam, cpu / 1000);
+                    }
+                }
+            }
+        }
         capped |= r.capped;
         // time oracle (first pass over this set of segments only; later passes re-execute the same commands)
         let suspicious_cpu: Vec<usize> = r.times.iter().filter(|(i, cpu, _)| *cpu > cpu_limit(infos[*i].len)).map(|t| t.0).collect();
         let suspicious_blk: Vec<usize> = r.times.iter().filter(|(_, _, b)| *b > BLOCKED_LIMIT_US).map(|t| t.0).collect();
         if !suspicious_cpu.is_empty() || !suspicious_blk.is_empty() {
-            // measure again (scheduling noise, cold caches); keep the smaller figures. A figure 2x over the limit needs no second opinion (and the case has a hard CPU deadline).
-            let grey = r.times.iter().any(|(i, cpu, b)| (*cpu > cpu_limit(infos[*i].len) && *cpu <= 2 * cpu_limit(infos[*i].len)) || *b > BLOCKED_LIMIT_US);
+            // CPU time is taken as measured (it does not depend on the load of the machine; what is over the limit here is over
+            // it by orders of magnitude). Blocked time is measured again twice (a page fault storm or a stopped process is not a sleep).
             let mut best = r.times.clone();
-            if grey {
-                for _ in 0..if suspicious_blk.is_empty() { 1 } else { 2 } {
+            if !suspicious_blk.is_empty() {
+                for _ in 0..2 {
                     let r2 = run(&alive);
                     for t in best.iter_mut() {
                         if let Some(u) = r2.times.iter().find(|u| u.0 == t.0) {
-                            t.1 = t.1.min(u.1);
                             t.2 = t.2.min(u.2);
                         }
                     }
